@@ -130,15 +130,21 @@ def c18_reload_history(rng):
         return rec.events, list(sc2.name_gen.kinds.items()), lost, succ, stages.STAGES[k]
 
 
-def c18_pipeline_history(succ, rename=None):
+def c18_pipeline_history(succ, rename=None, via_add_block=False):
     from numba_scfg.core.datastructures.scfg import SCFG
     from numba_scfg.core.datastructures.basic_block import BasicBlock
 
     with Recorder() as rec:
         ren = rename or {}
         nm = lambda i: ren.get(str(i), str(i))  # noqa: E731
-        sc = SCFG({nm(i): BasicBlock(name=nm(i), _jump_targets=tuple(nm(j) for j in s))
-                   for i, s in enumerate(succ)})
+        if via_add_block:
+            # the graph assembled block by block through the public add_block
+            sc = SCFG()
+            for i, s in enumerate(succ):
+                sc.add_block(BasicBlock(name=nm(i), _jump_targets=tuple(nm(j) for j in s)))
+        else:
+            sc = SCFG({nm(i): BasicBlock(name=nm(i), _jump_targets=tuple(nm(j) for j in s))
+                       for i, s in enumerate(succ)})
         orig = export.original_of(sc)
         exc = None
         try:
@@ -243,6 +249,17 @@ def check_c18(pid, tier, build, props):
                 ns_bad += 1
                 violations.append({"graph": {k: v[1] for k, v in orig.items()}, "witness": w,
                                    "class": "input block named like a generated name is overwritten"})
+            # the same graph assembled with add_block (events are not fed to the model: the direct
+            # statement of the property is evaluated on what was handed out)
+            ev2, ks2, orig2, sc2, exc2 = c18_pipeline_history(succ, rename, via_add_block=True)
+            handed = [e[3] for e in ev2 if e[0] != "reserve"]
+            clash = [n for n in handed if n in orig2]
+            w2 = ({"reason": "handed out a name already present in the graph (built with add_block)", "name": clash[0]}
+                  if clash else ({"reason": "raises (graph built with add_block)", "detail": exc2} if exc2
+                                 else pysim.find_cons_violation(orig2, sc2)))
+            if w2 and len(violations) < 8:
+                violations.append({"graph": {k: v[1] for k, v in orig2.items()}, "built_with": "add_block",
+                                   "witness": w2})
     for ev, ks, what in cases:
         w = c18_impl_violation(ev)
         if w:
